@@ -429,6 +429,29 @@ theorem C08_original_stale_cache_witness : ¬ ResumeStatement RCfg.original Cfg.
   rw [C08_original_stale_cache_detail.2.2.1] at this
   cases this
 
+/-- `0 → {1, 2} → 3`, input `a` of `3` connected to `1` then to `2` (so `2` has priority) -/
+def wOrder : FinDag :=
+  { n := 4, slots := [[], [[0]], [[0]], [[2, 1], [1]]], down := [[2, 1], [3], [3], []],
+    starters := [0], onExec := [], fails := [], rank := [0, 1, 1, 2] }
+
+/-- NOW: a checkpoint written from inside a macro that is itself a value-linked child of an outer macro
+cannot even be loaded — `Macro.__setstate__` re-sends the linked value to a child that is marked
+`running` (here node `0` of `wFlight`, standing for the macro that was running when the node inside it
+saved the graph), which the input lock refuses; with the links re-forged silently the load goes through -/
+theorem C08_load_refused_witness :
+    loadRefused RCfg.now [0] (snapshot RCfg.now sFlight) = true ∧
+    loadRefused RCfg.repaired [0] (snapshot RCfg.repaired sFlight) = false := by
+  decide +kernel
+
+/-- NOW: `Node.load` brings every level below the root back with the fetch priority of multiply
+connected inputs reversed (C07's subject: one unpickling reverses, the root is restored twice) — the
+resumed run of such a level is a run of a DIFFERENT graph, outside the hypotheses of the theorems above -/
+theorem C08_reload_reverses_witness :
+    (reloadDag RCfg.now false wOrder.toDag).slots 3 = [[1, 2], [1]] ∧
+    (reloadDag RCfg.now true wOrder.toDag).slots 3 = [[2, 1], [1]] ∧
+    (reloadDag RCfg.repaired false wOrder.toDag).slots 3 = [[2, 1], [1]] := by
+  decide +kernel
+
 /-! ## (a) the recovery file is written once, by the root, and only there -/
 
 /-- whatever set of leaves raises, wherever in the ownership tree: of all the nodes that end up
@@ -568,5 +591,7 @@ end PwVerif.C08
 #print axioms PwVerif.C08.C08_stale_trigger_detail
 #print axioms PwVerif.C08.C08_stale_trigger_now
 #print axioms PwVerif.C08.C08_original_stale_cache_witness
+#print axioms PwVerif.C08.C08_load_refused_witness
+#print axioms PwVerif.C08.C08_reload_reverses_witness
 #print axioms PwVerif.C08.C08_recovery_root_only
 #print axioms PwVerif.C08.C08_checkpoint_at_root
